@@ -28,6 +28,15 @@ for dpath, _dirs, files in os.walk(os.path.join(REPO, 'valjean')):
             for node in body:
                 if isinstance(node, (ast.FunctionDef, ast.AsyncFunctionDef)):
                     names.append(prefix + node.name)
+                    # closures: Outer.inner
+                    todo = list(node.body)
+                    while todo:
+                        sub = todo.pop()
+                        if isinstance(sub, (ast.FunctionDef,
+                                            ast.AsyncFunctionDef)):
+                            visit([sub], prefix + node.name + '.')
+                        elif not isinstance(sub, (ast.ClassDef, ast.Lambda)):
+                            todo.extend(ast.iter_child_nodes(sub))
                 elif isinstance(node, ast.ClassDef):
                     visit(node.body, prefix + node.name + '.')
         visit(ast.parse(src).body, '')
